@@ -63,3 +63,46 @@ func VerifAssumeDirBlock(g bool, blk []byte, nslots uint64, self uint64, ninode 
 		}
 	}
 }
+
+func vAnd(a, b bool) bool { return a && b }
+
+// VerifDirBlockOk is the clause-for-clause counterpart of VerifAssumeDirBlock as a predicate (for the
+// post-state of a step), restricted to the slots below the directory's size.
+func VerifDirBlockOk(g bool, blk []byte, nslots uint64, size uint64, self uint64, ninode uint64, namemax uint64) bool {
+	ok := true
+	for s := uint64(0); s < nslots; s++ {
+		in := g && s*DIRENTSZ < size
+		inum, l := VerifSlot(blk, s)
+		ok = vAnd(ok, !in || inum < ninode)
+		ok = vAnd(ok, !in || l <= MAXNAMELEN)
+		ok = vAnd(ok, !in || inum == 0 || l >= 1)
+		o := s * DIRENTSZ
+		if s == 0 {
+			ok = vAnd(ok, !in || (inum == self && l == 1 && blk[o+16] == '.'))
+		} else if s == 1 {
+			ok = vAnd(ok, !in || (inum != 0 && l == 2 && blk[o+16] == '.' && blk[o+17] == '.'))
+		} else {
+			ok = vAnd(ok, !in || inum == 0 || !(l == 1 && blk[o+16] == '.'))
+			ok = vAnd(ok, !in || inum == 0 || !(l == 2 && blk[o+16] == '.' && blk[o+17] == '.'))
+			ok = vAnd(ok, !in || inum != self)
+		}
+	}
+	if namemax == 0 {
+		// pairwise uniqueness is established by the caller (frame + the request's name occurs once)
+		return ok
+	}
+	for s := uint64(2); s < nslots; s++ {
+		is, ls := VerifSlot(blk, s)
+		for t := s + 1; t < nslots; t++ {
+			in := g && t*DIRENTSZ < size
+			it, lt := VerifSlot(blk, t)
+			same := ls == lt
+			for i := uint64(0); i < namemax; i++ {
+				same = same && (i >= ls || blk[s*DIRENTSZ+16+i] == blk[t*DIRENTSZ+16+i])
+			}
+			ok = vAnd(ok, !in || is == 0 || it == 0 || !same)
+			ok = vAnd(ok, !in || is == 0 || it == 0 || is != it)
+		}
+	}
+	return ok
+}
